@@ -42,7 +42,7 @@ try:
             want.setdefault(c["check"], []).append(c["signature"])
         ok = True; seen_all = []
         for chk, sigs in want.items():
-            out = sh("./check", chk, "--tier", os.environ.get("TIER", "quick"))
+            out = sh("./check", chk, "--tier", os.environ.get("TIER", "quick"), env=dict(os.environ, VERIF_NO_EVIDENCE="1"))
             seen = re.findall(r"signature: (\S+)", out.stdout + out.stderr)
             seen_all += seen
             viol = "VIOLATION property=%s" % chk in out.stdout
